@@ -95,8 +95,8 @@ PROPS["C14"] = {
 }
 
 PROPS["C16"] = {
-    "parts": [{"name": "pool", "pkg": "c16", "chk": "chk_c16", "args": ["pool"]},
-              {"name": "router", "pkg": "c16", "chk": "chk_c16", "args": ["router"]},
+    "parts": [{"name": "pool", "pkg": "c16", "chk": "chk_c16", "args": ["pool"], "crash_reasons": {"*": 9}},
+              {"name": "router", "pkg": "c16", "chk": "chk_c16", "args": ["router"], "crash_reasons": {"*": 9}},
               {"name": "waiting", "pkg": "c16", "chk": "chk_c16_waiting", "args": ["waiting"]}],
     "reasons": {p: {
         "1": "a name that is not present cannot be added (or a present one can be added twice / removal refused)",
@@ -105,7 +105,8 @@ PROPS["C16"] = {
         "4": "while a client is being constructed its half-initialised pool entry is visible, or the reservation is not exclusive",
         "5": "wrong number of steps observed",
         "6": "a call in flight at removal time did not end",
-        "7": "goroutines of the bridge still running after every target was removed"} for p in ("pool", "router", "waiting")},
+        "7": "goroutines of the bridge still running after every target was removed",
+        "9": "the process died (a panic in the pool / router / connection code) while this history was running"} for p in ("pool", "router", "waiting")},
     "rule": "pool: histories of 1-15 New (35% failing constructor, which re-entrantly calls Get/New for the same name) / controller.Close / Get / Stream-on-old-connection over 3 names on AdaptedClientPool with bufconn; "
             "router: histories of 1-12 Add (30% failing constructor) / Remove on ReflectionRouter against a bufconn target with reflection, a held in-flight call at removal, Stream on the removed connection, goroutine dump at the end; non-trivial = history with a failed add and a removal; waiting: 1-4 stream attempts (with and without a deadline) waiting for an unreachable target when its controller is closed: all must end within 2 s with Unavailable",
     "level_text": "Coq theorems over ALL histories (incl. failing Adds): a name is addable iff not present; Get never yields a present-but-missing entry (the Reserved state is never observable, also re-entrantly); after Remove the name is absent everywhere and its connection is closed; a failed Add changes nothing. Tied to the code by pool-level and ReflectionRouter-level histories with in-flight calls and a goroutine-leak check.",
